@@ -151,7 +151,20 @@ Copy == \E x \in AX, a \in AA, f2 \in {"set", "add"}, y \in AY,
             IN /\ s1 \notin {Err, Skip} /\ s2 \notin {Err, Skip} /\ s3 # Skip /\ y # a /\ x # a /\ y # x
                /\ case = [fam |-> "copy", scale |-> 0, acts |-> <<a1, a2, a3>>,
                           want |-> IF s3 = Err THEN [err |-> TRUE, store |-> s2.st] ELSE [err |-> FALSE, store |-> s3.st]]
-Init == Single \/ Pair \/ Scaled \/ ScaledPair \/ Copy
+\* The kind of a literal is part of its meaning: 3 and 3.0 in one rule, stored where the kind shows (map entries of an exact
+\* element type, context variables, JSON members) and in numeric fields
+KV == {"F.MI[a]", "F.MF[a]", "N", "Q", "J.n", "F.I64", "F.F64", "F.AI[0]", "F.P.F64"}
+Kinds2 == \E t1 \in KV, t2 \in KV, intFirst \in BOOLEAN :
+            LET c1 == IF intFirst THEN I(3) ELSE R(3, 1)
+                c2 == IF intFirst THEN R(3, 1) ELSE I(3)
+                a1 == Asg(t1, "set", [k |-> "c", v |-> c1])
+                a2 == Asg(t2, "set", [k |-> "c", v |-> c2])
+                s1 == Assign(a1, S0)
+                s2 == IF s1 \in {Err, Skip} THEN s1 ELSE Assign(a2, s1)
+            IN /\ t1 # t2 /\ s1 \notin {Err, Skip} /\ s2 # Skip
+               /\ case = [fam |-> "kinds", scale |-> 0, acts |-> <<a1, a2>>,
+                          want |-> IF s2 = Err THEN [err |-> TRUE, store |-> s1.st] ELSE [err |-> FALSE, store |-> s2.st]]
+Init == Single \/ Pair \/ Scaled \/ ScaledPair \/ Copy \/ Kinds2
 Next == UNCHANGED case
 Spec == Init /\ [][Next]_case
 \* frame condition of the model itself: at most the assigned locations differ from the initial store
